@@ -188,6 +188,48 @@ fn show_stream(s: &[u8]) -> String {
 /// processed, then `flush()`: the final value per query (None = no result for the query).
 fn hamlet_direct(queries: &[&Query], stream: &[u8]) -> Result<Vec<Option<u64>>, String> {
     mc::catch(|| {
+        let mut agg = hamlet_build(queries, false);
+        for e in events_of(stream) {
+            agg.process(Arc::new(e));
+        }
+        let res = agg.flush();
+        (0..queries.len()).map(|qid| res.iter().find(|r| r.query_id == qid as u32).map(|r| r.value)).collect()
+    })
+    .map_err(|p| format!("panic: {p} at {}", mc::last_panic_location()))
+}
+
+/// Everything one window reports: per event the `(query, value)` pairs `process()` returns, then those
+/// of `flush()`.
+type WindowOut = Vec<Vec<(u32, u64)>>;
+
+fn window_out(agg: &mut HamletAggregator, stream: &[u8]) -> WindowOut {
+    let pairs = |rs: Vec<varpulis_runtime::hamlet::aggregator::AggregationResult>| {
+        let mut v: Vec<(u32, u64)> = rs.iter().map(|r| (r.query_id, r.value)).collect();
+        v.sort();
+        v
+    };
+    let mut out: WindowOut = events_of(stream).into_iter().map(|e| pairs(agg.process(Arc::new(e)))).collect();
+    out.push(pairs(agg.flush()));
+    out
+}
+
+/// Window `second` on a fresh aggregator vs. on an aggregator that already processed and flushed window
+/// `first`: `flush()` ends a window, so the reports of the next one must not depend on the previous
+/// one (added after seeded change C25: state surviving in the pooled graphlets).
+fn hamlet_reuse(queries: &[&Query], first: &[u8], second: &[u8], incremental: bool) -> Result<(WindowOut, WindowOut), String> {
+    mc::catch(|| {
+        let mut fresh = hamlet_build(queries, incremental);
+        let want = window_out(&mut fresh, second);
+        let mut reused = hamlet_build(queries, incremental);
+        let _ = window_out(&mut reused, first);
+        let got = window_out(&mut reused, second);
+        (want, got)
+    })
+    .map_err(|p| format!("panic: {p} at {}", mc::last_panic_location()))
+}
+
+fn hamlet_build(queries: &[&Query], incremental: bool) -> HamletAggregator {
+    {
         let mut builder = TemplateBuilder::new();
         let mut base = 0u16;
         for (qid, query) in queries.iter().enumerate() {
@@ -215,17 +257,12 @@ fn hamlet_direct(queries: &[&Query], stream: &[u8]) -> Result<Vec<Option<u64>>, 
                 }
             })
             .collect();
-        let mut agg = HamletAggregator::new(HamletConfig::default(), template);
+        let mut agg = HamletAggregator::new(HamletConfig { incremental, ..HamletConfig::default() }, template);
         for r in regs {
             agg.register_query(r);
         }
-        for e in events_of(stream) {
-            agg.process(Arc::new(e));
-        }
-        let res = agg.flush();
-        (0..queries.len()).map(|qid| res.iter().find(|r| r.query_id == qid as u32).map(|r| r.value)).collect()
-    })
-    .map_err(|p| format!("panic: {p} at {}", mc::last_panic_location()))
+        agg
+    }
 }
 
 /// `GretaExecutor` with one query: running count after every event (None = no result), as the
@@ -483,6 +520,16 @@ pub fn run(args: &Args) -> ! {
         let grps = groups(&cfg);
         let space = mc::SeqSpace::new(cfg.types.len(), 1, maxlen);
         let total = space.total();
+        let firsts: Vec<Vec<u8>> = {
+            let sp = mc::SeqSpace::new(cfg.types.len(), 1, 2);
+            (0..sp.total())
+                .map(|i| {
+                    let mut idx = Vec::new();
+                    sp.decode(i, &mut idx);
+                    idx.iter().map(|j| cfg.types[*j]).collect()
+                })
+                .collect()
+        };
         let (acc, done) = mc::par_indices(total, args.threads, 64, |i, acc| {
             if i % 64 == 0 && deadline.expired() {
                 return false;
@@ -495,6 +542,20 @@ pub fn run(args: &Args) -> ! {
             acc.evaluations += cfg.pool.len() as u64;
             for g in &grps {
                 check_sharing(&sel, &cfg, g, &alone, &alone_direct, &stream, acc);
+            }
+            // window reuse: every previous window of length 1..=2, both emission modes, each query alone
+            // and the whole pool in one aggregator
+            let mut sets: Vec<Vec<&Query>> = cfg.pool.iter().map(|q| vec![q]).collect();
+            if cfg.pool.len() > 1 {
+                sets.push(cfg.pool.iter().collect());
+            }
+            for first in &firsts {
+                for incremental in [false, true] {
+                    for set in &sets {
+                        acc.evaluations += 2;
+                        check_reuse(&cfg, set, first, &stream, incremental, acc);
+                    }
+                }
             }
             if alone.iter().any(|r| r.as_ref().is_some_and(|r| !r.is_empty())) {
                 acc.count("streams_on_which_some_query_reports_alone", 1);
@@ -512,12 +573,29 @@ pub fn run(args: &Args) -> ! {
         rep.absorb(acc);
     }
     rep.set("spaces", json!(spaces));
-    rep.rule = "For each configuration (event types, pool of queries `T1 -> all T2 -> …` with `.within(60s).trend_aggregate(n: count_trends()).emit(n: n)`), EVERY stream over the event types up to the stated length (event i at T0+i s, all inside one 60 s window) is run (1) through each query alone — in the engine (every reported n after i events is compared with the brute-force number of trends among the first i events, all 2^i position sets enumerated, and the last report with the total), in a directly built HamletAggregator (flush() value vs. total) and in a directly built GretaExecutor (running count after every event); (2) through every group of 2–4 queries of the pool together — engine: the reports of each member's stream are compared with its reports alone; HamletAggregator: flush() value per query in one aggregator holding the group vs. in an aggregator of its own. evaluations = executions of the engine / of a library object. Non-trivial = (query, stream) pairs whose stream contains at least one trend of the query.".into();
+    rep.rule = "For each configuration (event types, pool of queries `T1 -> all T2 -> …` with `.within(60s).trend_aggregate(n: count_trends()).emit(n: n)`), EVERY stream over the event types up to the stated length (event i at T0+i s, all inside one 60 s window) is run (1) through each query alone — in the engine (every reported n after i events is compared with the brute-force number of trends among the first i events, all 2^i position sets enumerated, and the last report with the total), in a directly built HamletAggregator (flush() value vs. total) and in a directly built GretaExecutor (running count after every event); (2) through every group of 2–4 queries of the pool together — engine: the reports of each member's stream are compared with its reports alone; HamletAggregator: flush() value per query in one aggregator holding the group vs. in an aggregator of its own; (3) window reuse: the stream as the SECOND window of an aggregator that already processed and flushed a first window (every stream of length 1..=2), against the same stream on a fresh aggregator — per-event process() reports and flush() reports, incremental emission on and off, each query alone and the whole pool together. evaluations = executions of the engine / of a library object. Non-trivial = (query, stream) pairs whose stream contains at least one trend of the query.".into();
     rep.assume("a trend is a set of stream positions whose events in stream order spell the pattern (skip-till-any-match, docs/reference/trend-aggregation.md: E+ over n events has 2^n − 1 trends); one window: all timestamps within 60 s");
     rep.assume("the engine emits running totals (Engine::load configures HamletConfig.incremental = true); a reported value is compared with the number of trends present when it is reported, and the last reported value with the total of the stream; a stream without trends may report nothing or 0");
     rep.assume("counting and sharing are judged separately: sharing compares a query's reports alone and in company (value and position of every report), whatever the values are");
     rep.assume("direct HamletAggregator construction follows Engine::load (one query) and the crate's multi-query unit tests (several queries: Kleene self-loop at first state of the query + step position); direct GretaExecutor use follows tests/greta_coverage_tests.rs");
     rep.finish()
+}
+
+fn check_reuse(cfg: &Config, set: &[&Query], first: &[u8], stream: &[u8], incremental: bool, acc: &mut Acc) {
+    let who = if set.len() == 1 { set[0].shape() } else { format!("pool_of_{}", set.len()) };
+    let names: Vec<&str> = set.iter().map(|q| q.name).collect();
+    let case = || json!({"kind": "reuse", "config": cfg.name, "queries": names, "first": show_stream(first), "stream": show_stream(stream), "incremental": incremental});
+    let size = stream.len() * 10 + first.len();
+    match hamlet_reuse(set, first, stream, incremental) {
+        Ok((want, got)) if want == got => {}
+        Ok((want, got)) => acc.viol.add(
+            format!("C25:window_reuse:hamlet_direct:{}:{who}", if incremental { "incremental" } else { "flush_only" }),
+            format!("HamletAggregator with {names:?}: window {} reports {want:?} on a fresh aggregator but {got:?} after window {} was processed and flushed (per event, then flush: (query, value))", show_stream(stream), show_stream(first)),
+            case(),
+            size,
+        ),
+        Err(e) => acc.viol.add(format!("C25:window_reuse:hamlet_direct:error:{who}"), format!("window {} after window {}: {e}", show_stream(stream), show_stream(first)), case(), size),
+    }
 }
 
 fn replay(case: &J, acc: &mut Acc) {
@@ -541,6 +619,13 @@ fn replay(case: &J, acc: &mut Acc) {
             let alone_direct: Vec<Option<Option<u64>>> = cfg.pool.iter().map(|q| hamlet_direct(&[q], &stream).ok().map(|v| v[0])).collect();
             acc.evaluations += scratch.evaluations;
             check_sharing(&sel, cfg, g, &alone, &alone_direct, &stream, acc);
+        }
+        Some("reuse") => {
+            let names: Vec<&str> = case["queries"].as_array().map(|a| a.iter().filter_map(|v| v.as_str()).collect()).unwrap_or_default();
+            let set: Vec<&Query> = cfg.pool.iter().filter(|q| names.contains(&q.name)).collect();
+            let first: Vec<u8> = case["first"].as_str().unwrap_or("").bytes().collect();
+            acc.evaluations += 2;
+            check_reuse(cfg, &set, &first, &stream, case["incremental"].as_bool().unwrap_or(false), acc);
         }
         _ => mc::machinery_error("replay: unknown case kind"),
     }
